@@ -15,6 +15,8 @@ HEADER = '''(* GENERATED on every run by harness/srcgen (pylite.py, graph.py) fr
    recurses on explicit fuel and raises RecursionError when the fuel is used up (conventions: DESIGN section 5). *)
 From PJ Require Import Base.Prelude Graph.Model.
 
+Definition EMPTY_ID : Z := 9223372036854775807.     (* sys.maxsize: the id of the hidden root task of a WBS *)
+
 Fixpoint src_fold_res {S A : Type} (f : S -> A -> res S) (l : list A) (s : S) : res S :=
   match l with
   | [] => Ok s
@@ -64,6 +66,41 @@ SPECS = [
     closure('__get_all_predecessors', 'get_predecessor', 'src_get_predecessor', 'src_all_predecessors', True),
     walker('__get_all_successors', 'get_successor', 'src_get_successor'),
     closure('__get_all_successors', 'get_successor', 'src_get_successor', 'src_all_successors', True),
+]
+
+
+NAMES = {'EMPTY_TASK_ID': ('EMPTY_ID', 'Z')}
+ATTRS_ID = dict(ATTRS, id=('tid', 'Z'))
+PARENT_PROP = {'parent': ('src_parent h', ('option', 'obj'), True)}
+
+SPECS += [
+    # Task.parent (the getter): the raw parent with the hidden WBS root masked
+    dict(file='task.py', cls='Task', func='parent', decorator='property', coq_name='src_parent', heap='h', obj_attrs=ATTRS_ID,
+         names=NAMES, params={'self': ('self', 'obj')}, signature=[('h', 'heap'), ('self', 'obj')], ret=('option', 'obj')),
+    # Task.__get_all_parents: the public parents, nearest first
+    dict(file='task.py', cls='Task', func='get_parent', nested_in='__get_all_parents', coq_name='src_get_parent', heap='h',
+         obj_attrs=ATTRS_ID, obj_props=PARENT_PROP, names=NAMES,
+         params={'t': ('t', ('option', 'obj'))}, signature=[('h', 'heap'), ('t', ('option', 'obj'))], ret=OBJS,
+         generator=True, recursive=True, loops='fold', self_calls=('get_parent',),
+         self_type=('fun', [('option', 'obj')], OBJS, True)),
+    dict(file='task.py', cls='Task', func='__get_all_parents', coq_name='src_all_parents', heap='h', obj_attrs=ATTRS_ID,
+         nested_defs=('get_parent',), params={'self': ('self', 'obj')},
+         signature=[('fuel', 'nat'), ('h', 'heap'), ('self', 'obj')], ret=OBJS,
+         calls={'get_parent': ('apply', 'src_get_parent fuel h', ('fun', [('option', 'obj')], OBJS, True), [0])}),
+    # Task.__check_no_links_with(new_parent): no task of the subtree is linked with the future parent chain
+    dict(file='task.py', cls='Task', func='__check_no_links_with', coq_name='src_check_no_links_with', heap='h', obj_attrs=ATTRS_ID,
+         obj_props={'all_parents': ('src_all_parents fuel h', OBJS, True)},
+         params={'self': ('self', 'obj'), 'new_parent': ('new_parent', 'obj')},
+         signature=[('fuel', 'nat'), ('h', 'heap'), ('self', 'obj'), ('new_parent', 'obj')], ret='unit',
+         locals={'parents_object_ids': OBJS}, loops='fold',
+         calls={'self.__get_all_children': ('apply', 'src_all_children fuel h self', ('fun', [], OBJS, True), [])}),
+    # _has_id_intersection(parent, children): ids of the incoming subtrees against the receiving tree and each other
+    dict(file='task.py', cls=None, func='_has_id_intersection', coq_name='src_has_id_intersection', heap='h', obj_attrs=ATTRS_ID,
+         params={'parent': ('parent', 'obj'), 'children': ('children', OBJS)},
+         signature=[('fuel', 'nat'), ('h', 'heap'), ('parent', 'obj'), ('children', OBJS)], ret='bool',
+         locals={'all_children_tasks': OBJS, 'new_tasks': OBJS, 'new_tasks_object_ids': OBJS},
+         calls={'_find_root': ('apply', 'src_find_root h', ('fun', ['obj'], 'obj', True), [0]),
+                '_collect_subtree': ('apply', 'src_collect_subtree fuel h', ('fun', ['obj'], OBJS, True), [0])}),
 ]
 
 
